@@ -3576,12 +3576,27 @@ class Graph(_protocols.GraphProtocol, Sequence[Node], _display.PrettyPrintable):
     ):
         self.name = name
 
+        # Reject nodes that belong to another graph before any value is claimed, and release
+        # the values already claimed when a later one is rejected: a failed construction must
+        # not leave values owned by a graph that never came into existence.
+        nodes = tuple(nodes)
+        for node in nodes:
+            self._check_node_can_be_added(node)
+
         # Private fields that are not to be accessed by any other classes
         self._inputs = _graph_containers.GraphInputs(self, inputs)
-        self._outputs = _graph_containers.GraphOutputs(self, outputs)
-        self._initializers = _graph_containers.GraphInitializers(
-            self, {initializer.name: initializer for initializer in initializers}
-        )
+        try:
+            self._outputs = _graph_containers.GraphOutputs(self, outputs)
+            try:
+                self._initializers = _graph_containers.GraphInitializers(
+                    self, {initializer.name: initializer for initializer in initializers}
+                )
+            except BaseException:
+                self._outputs.clear()
+                raise
+        except BaseException:
+            self._inputs.clear()
+            raise
         self._doc_string = doc_string
         self._opset_imports = opset_imports or {}
         self._metadata: _metadata.MetadataStore | None = None
